@@ -158,6 +158,18 @@ impl LibraryRenderer {
         Ok(())
     }
 
+    /// The digits after the decimal point of the seconds of a time of day:
+    /// "00" for a whole number of seconds, otherwise the nanoseconds as a
+    /// decimal fraction without trailing zeros (50 ms is "05", not "50").
+    fn second_fraction(nanosecond: u32) -> String {
+        if nanosecond == 0 {
+            return "00".to_string();
+        }
+        format!("{:09}", nanosecond)
+            .trim_end_matches('0')
+            .to_string()
+    }
+
     /// Writes the steps before or after a transition: a single step name, or
     /// a parenthesized list of two or more step names.
     fn visit_transition_steps(&mut self, steps: &[Id]) -> Result<(), Diagnostic> {
@@ -250,8 +262,18 @@ impl Visitor<Diagnostic> for LibraryRenderer {
         &mut self,
         node: &DurationLiteral,
     ) -> Result<Self::Value, Diagnostic> {
-        // Always write out as milliseconds. The largest unit is allowed to be "out of range"
-        let val = format!("TIME#{}ms", node.interval.whole_milliseconds());
+        // Always write out as milliseconds. The largest unit is allowed to be "out of range".
+        // What is finer than a millisecond is written as the fraction of the milliseconds.
+        let nanoseconds = node.interval.whole_nanoseconds();
+        let sign = if nanoseconds < 0 { "-" } else { "" };
+        let whole = nanoseconds.unsigned_abs() / 1_000_000;
+        let fraction = nanoseconds.unsigned_abs() % 1_000_000;
+        let val = if fraction == 0 {
+            format!("TIME#{}{}ms", sign, whole)
+        } else {
+            let fraction = format!("{:06}", fraction);
+            format!("TIME#{}{}.{}ms", sign, whole, fraction.trim_end_matches('0'))
+        };
         self.write_ws(val.as_str());
         Ok(())
     }
@@ -260,11 +282,14 @@ impl Visitor<Diagnostic> for LibraryRenderer {
         &mut self,
         node: &TimeOfDayLiteral,
     ) -> Result<Self::Value, Diagnostic> {
-        let (hr, min, sec, milli) = node.hmsm();
+        let (hr, min, sec, nano) = node.hms_nano();
         self.write_ws(
             format!(
-                "TIME_OF_DAY#{:0>2}:{:0>2}:{:0>2}.{:0>2}",
-                hr, min, sec, milli
+                "TIME_OF_DAY#{:0>2}:{:0>2}:{:0>2}.{}",
+                hr,
+                min,
+                sec,
+                Self::second_fraction(nano)
             )
             .as_str(),
         );
@@ -281,12 +306,18 @@ impl Visitor<Diagnostic> for LibraryRenderer {
         &mut self,
         node: &DateAndTimeLiteral,
     ) -> Result<Self::Value, Diagnostic> {
-        let (hr, min, sec, milli) = node.hmsm();
+        let (hr, min, sec, nano) = node.hms_nano();
         let (year, month, day) = node.ymd();
         self.write_ws(
             format!(
-                "DATE_AND_TIME#{:0>4}-{:0>2}-{:0>2}-{:0>2}:{:0>2}:{:0>2}.{:0>2}",
-                year, month, day, hr, min, sec, milli
+                "DATE_AND_TIME#{:0>4}-{:0>2}-{:0>2}-{:0>2}:{:0>2}:{:0>2}.{}",
+                year,
+                month,
+                day,
+                hr,
+                min,
+                sec,
+                Self::second_fraction(nano)
             )
             .as_str(),
         );
